@@ -216,7 +216,7 @@ def u256IdivU128 (prof : Profile) (xh xl : Nat) (y : Nat) : Outcome (Nat × Nat 
     let (_, xl', r) ← u256IdivU128Special prof t xl y
     pure (xh / y, xl', r)
 
-/-- `i128_shifted_div_mod_floor` (after the D10 repair) -/
+/-- `i128_shifted_div_mod_floor` (after the D10 and D13 repairs) -/
 def i128ShiftedDivModFloor (prof : Profile) (x : Int) (p : Nat) (y : Int) :
     Outcome (Option (Int × Int)) := do
   let t ← tenPow p
@@ -239,11 +239,15 @@ def i128ShiftedDivModFloor (prof : Profile) (x : Int) (p : Nat) (y : Int) :
         let q ← plainI128 prof (q - 1)
         let r ← plainI128 prof (y - r)
         pure (some (q, r))
-    else if y < 0 then do
-      let q ← negI128 prof q
-      let q ← plainI128 prof (q - 1)
-      let r ← plainI128 prof (r - y)
-      pure (some (q, r))
+    else if y < 0 then
+      if r = 0 then do
+        let q ← negI128 prof q
+        pure (some (q, r))
+      else do
+        let q ← negI128 prof q
+        let q ← plainI128 prof (q - 1)
+        let r ← plainI128 prof (r + y)
+        pure (some (q, r))
     else
       pure (some (q, r))
 
